@@ -32,22 +32,24 @@ pub enum Node {
     Number(i64),
 }
 
-fn gcd(expr1: i64, expr2: i64) -> i64 {
-    let mut a = expr1;
-    let mut b = expr2;
+fn gcd(expr1: i64, expr2: i64) -> Option<i64> {
+    let mut a = expr1.unsigned_abs();
+    let mut b = expr2.unsigned_abs();
     while b != 0 {
         let remainder = a % b;
-        a = expr2;
+        a = b;
         b = remainder;
     }
-    a.abs()
+    i64::try_from(a).ok()
 }
 
-fn lcm(expr1: i64, expr2: i64) -> i64 {
+fn lcm(expr1: i64, expr2: i64) -> Option<i64> {
     if expr1 == 0 || expr2 == 0 {
-        return 0;
+        return Some(0);
     }
-    (expr1 / gcd(expr1, expr2) * expr2).abs()
+    (expr1 / gcd(expr1, expr2)?)
+        .checked_mul(expr2)?
+        .checked_abs()
 }
 
 const OVERFLOW: &str = "Integer overflow";
@@ -130,38 +132,21 @@ pub fn eval(expr: Node) -> Result<i64, Box<dyn error::Error>> {
         }
         Gcd(args) => {
             // Ok(gcd(eval(*expr1)?, eval(*expr2)?))
-            if args.len() > 1 {
-                let mut result: Option<i64> = None;
-                for arg in <Vec<Node> as Clone>::clone(&args).into_iter() {
-                    let right_art = eval(arg)?;
-                    result = result
-                        .map(|left_arg| Some(gcd(left_arg, right_art)))
-                        .unwrap_or(Some(right_art));
-                }
-                Ok(result.unwrap())
-            } else {
-                match args.first() {
-                    Some(arg) => Ok(eval((*arg).clone())?),
-                    None => Ok(0),
-                }
+            let mut result: i64 = 0;
+            for arg in <Vec<Node> as Clone>::clone(&args).into_iter() {
+                result = gcd(result, eval(arg)?).ok_or(OVERFLOW)?;
             }
+            Ok(result)
         }
         Lcm(args) => {
-            if args.len() > 1 {
-                let mut result: Option<i64> = None;
-                for arg in <Vec<Node> as Clone>::clone(&args).into_iter() {
-                    let right_art = eval(arg)?;
-                    result = result
-                        .map(|left_arg| Some(lcm(left_arg, right_art)))
-                        .unwrap_or(Some(right_art));
-                }
-                Ok(result.unwrap())
-            } else {
-                match args.first() {
-                    Some(arg) => Ok(eval((*arg).clone())?),
-                    None => Ok(0),
-                }
+            if args.is_empty() {
+                return Ok(0);
             }
+            let mut result: i64 = 1;
+            for arg in <Vec<Node> as Clone>::clone(&args).into_iter() {
+                result = lcm(result, eval(arg)?).ok_or(OVERFLOW)?;
+            }
+            Ok(result)
         }
         Min(args) => {
             if args.len() > 1 {
